@@ -513,7 +513,9 @@ func c02r4(c *Ctx) {
 						Fail("status.revision is assigned outside %s", pkgObjectSets)
 					continue
 				}
-				c02SetRevisionSite(c, fn, cc)
+				// the set-once / max+1 discipline of the site itself is decided by the matcher shared
+				// with C07.R6 (one implementation, reported under both ids; it accepts the max builtin,
+				// early-return and equivalent-comparison forms)
 			case "Spec":
 				// the phase's spec.revision is what a delegated phase compares object revisions against
 				o := c.Ob(fn, "phase-revision-copied", cc.Instr, "a delegated ObjectSetPhase is created with the revision of its ObjectSet").Require("argument == <ObjectSet parameter>.GetRevision()")
@@ -533,6 +535,7 @@ func c02r4(c *Ctx) {
 	if n == 0 {
 		c.AnchorLost("assignments of an ObjectSet's status.revision (interface method storing into .Status.Revision)")
 	}
+	c07r6(c)
 	// direct field stores that bypass the accessor (anything but a one-argument setter storing its argument)
 	for _, fn := range p.productFuncs() {
 		for _, b := range fn.Blocks {
